@@ -364,11 +364,13 @@ def ob_two_step(report):
                     # the same peer throughout (constrain both keys equal), replay the abstract log
                     r = Result(q, None, 'return')
                     effs = effects(r)
-                    keys = [e[2] for e in effs if e[0].startswith('map-')] + [e[2][0] for e in effs if e[0] == 'send' and e[2]]
-                    if len(keys) >= 2:
-                        eqs = [keys[0] == kk for kk in keys[1:] if isinstance(kk, z3.ExprRef)]
-                        if not ex.feasible(q.pc + eqs):
-                            continue
+                    # the same peer throughout: the key of the first operation equals the key of the second
+                    k1 = z3.BitVec('pid(new1)', 256) if a == 'add' else z3.BitVec('p', 256)
+                    k2 = z3.BitVec('pid(new2)', 256) if b == 'add' else k1
+                    keys = [k1, k2] + [e[2] for e in effs if e[0].startswith('map-')] + [e[2][0] for e in effs if e[0] == 'send' and e[2]]
+                    eqs = [keys[0] == kk for kk in keys[1:] if isinstance(kk, z3.ExprRef) and kk.sort() == keys[0].sort()]
+                    if not ex.feasible(q.pc + eqs):
+                        continue
                     for pre in (True, False):
                         # pre-state must agree with the first branch taken: skip inconsistent combos
                         first = effs[0][0] if effs else None
